@@ -32,12 +32,16 @@ LEVEL = "proof"
 LEVEL_NOTE = ("PARTIAL: pickle is modelled in Lean (PepperModel/Pickle.lean: unpickler VM, abstract pickler, canonical form of a rooted heap) and tied to "
               "CPython on every run: real .save bytes through the Lean VM, in-memory graph and the graph reloaded in a fresh process walked by id() and "
               "canonised by the Lean `canon`, Lean `dump` = real opcode list. PROVED (PepperProps/C16Pickle.lean): equal canonical forms => isomorphic "
-              "graphs incl. sharing and cycles; unpickler frame/identity/freshness lemmas; round trip for atoms and strings in any heap, and the full "
-              "isomorphism conclusion for each heap on which the evaluated check `roundtripB` is true (evaluated on every in-memory heap of every run). "
-              "NOT PROVED: the round trip for all heaps (containers, sharing, cycles); converse of canon_iso. NOT MODELLED: the C `_pickle` itself (only "
+              "graphs incl. sharing and cycles, and conversely (canon_iso, iso_canon); unpickler frame/identity/freshness lemmas; the round trip for every heap of "
+              "atoms, strings, bytes, tuples and lists (<= 1000 elements) with arbitrary sharing and cycles (simulation invariant, roundtrip_lists_tuples_partial), "
+              "and the full isomorphism conclusion for each heap on which the evaluated check `roundtripB` is true (evaluated on every in-memory heap of "
+              "every run). NOT PROVED: the round trip for all heaps (RoundtripStatement): dict, set, class and instance cells, i.e. the real .save heaps are "
+              "covered by evaluation only. NOT MODELLED: the C `_pickle` itself (only "
               "compared per run), find_class / import in the fresh process, what cls.__new__ / reduce callables return, sys.intern of attribute names, "
               "__setstate__ (none occurs; reported if one appears), BINFLOAT payload (opaque 8 bytes); decoded heap -> snapshot is read by the harness, "
-              "not in Lean. String identity is part of the compared graphs (the pickler preserves it)")
+              "not in Lean (snapshotOfHeap not done). String identity is part of the compared graphs (the pickler preserves it) EXCEPT for strings of <= 1 character: "
+              "the real unpickler returns the interpreter's singletons while a live graph may hold other objects with the same text (''.join in fix_seq), so "
+              "graphs are compared modulo the identity of such strings (pickleio.modulo_short_strings; counted in the evidence)")
 
 
 def replay(path):
@@ -172,6 +176,14 @@ class PickleTie:
         for k, (inp, nbytes, ops, (hm, rm, im), (hr, rr, ir), attrs) in enumerate(pend):
             vm, cm, cr, dm, rt = got[5 * k: 5 * k + 5]
             res.disagreements_checked += 4
+            # graphs are compared modulo the identity of strings of <= 1 character (interpreter singletons: the unpickler
+            # always returns the singleton, a live graph need not hold it) — see pickleio.modulo_short_strings
+            exact = "ok" in cm and "ok" in cr and cm["ok"] == cr["ok"]
+            if "ok" in cm and "ok" in cr and not exact:
+                res.count("pickle:graphs-equal-only-modulo-1-char-string-identity")
+            for g_ in (vm, cm, cr):
+                if "ok" in g_:
+                    g_["ok"] = pickleio.modulo_short_strings(g_["ok"])
             cmd = "pepper-compiler %s; pickle.load(open('out.save','rb')) in a new process" % inp.get("entry")
             for tag, g in (("in-memory", cm), ("reloaded", cr)):
                 if "ok" not in g:
@@ -182,6 +194,9 @@ class PickleTie:
             if attrs is not None:
                 am, ar = agot[0], agot[1]
                 agot = agot[2:]
+                for g_ in (am, ar):
+                    if "ok" in g_:
+                        g_["ok"] = pickleio.modulo_short_strings(g_["ok"])
                 if "ok" not in am or "ok" not in ar:
                     res.corr_breaks.append({"name": "PickleCanon", "input": inp, "model": json.dumps([am, ar])[:300], "impl": "attribute view"})
                 elif am["ok"] != ar["ok"]:
@@ -197,7 +212,7 @@ class PickleTie:
                 res.corr_breaks.append({"name": "PickleVM", "input": inp, "model": json.dumps(vm.get("err") or first_diff(vm["ok"], cr["ok"])),
                                         "impl": "reloaded graph"})
             real = pickleio.strip_framing(ops)
-            if same_graph and dm.get("ok") != real:
+            if exact and dm.get("ok") != real:
                 res.corr_breaks.append({"name": "PickleDump", "input": inp, "model": json.dumps(dm.get("err") or first_op_diff(dm["ok"], real)),
                                         "impl": "pickletools.genops(out.save)"})
             if rt.get("ok") is not True:
